@@ -7,7 +7,7 @@
 // visible.  The history properties are its loop invariants and the assertions
 // after each call, so they hold after every prefix of every history of every
 // length, ill-formed events included.  The function is never executed.
-use crate::keys::{Layout, Mapping, KeyCode, Event, Repeat};
+use crate::keys::{Layout, Mapping, KeyCode, Event, Repeat, layout_ok, mapping_ok};
 use crate::key_transforms::*;
 
 pub enum Op { Ev(Event), ReleaseAll }
